@@ -68,6 +68,17 @@ impl FromStr for Qty {
     }
 }
 
+/// Custom parameter with nested groups: all of them are non-empty in a match.
+#[derive(Debug, Parameter)]
+#[param(name = "date", regex = r"((\d{4})-(\d{2})-(\d{2}))")]
+pub struct Date(String);
+impl FromStr for Date {
+    type Err = String;
+    fn from_str(s: &str) -> Result<Self, String> {
+        if s.len() == 10 { Ok(Date(s.to_owned())) } else { Err(format!("not a date: {s:?}")) }
+    }
+}
+
 /// Custom parameter with a default name (lower-cased type name) and one group.
 #[derive(Debug, Parameter)]
 #[param(regex = r"[A-Z]{3}")]
@@ -212,6 +223,23 @@ macro_rules! gen_step {
 }
 gen_step!(lit_macro_ret_err, "lit_macro_ret_err", "macro made err", Result<(), String>, Err("from a macro-made step".into()));
 gen_step!(lit_macro_ret_ok, "lit_macro_ret_ok", "macro made ok", Result<(), String>, Ok(()));
+
+// user-named groups whose names start with a double underscore (the prefix the macro itself uses)
+#[given(regex = r"^(?P<__user>\w+) logs in with (?P<__pass>\w+)$")]
+fn re_dunder_named(_w: &mut ZA, user: String, pass: String) {
+    rec("re_dunder_named", format!("{user:?},{pass:?}"));
+}
+
+#[when(regex = r"^(?P<__a>\w+) and (?P<__b>\w+) log out$")]
+fn re_dunder_named_slice(_w: &mut ZA, xs: &[String]) {
+    rec("re_dunder_named_slice", format!("{xs:?}"));
+}
+
+// a custom parameter whose capture groups participate together (nested)
+#[then(expr = "due on {date}")]
+fn ex_nested_param(_w: &mut ZA, d: Date) {
+    rec("ex_nested_param", format!("{:?}", d.0));
+}
 
 #[then(regex = r"^step arg (\d+)$")]
 fn re_with_step(_w: &mut ZA, n: u8, #[step] st: &Step) {
@@ -425,6 +453,9 @@ fn defs() -> Vec<Def> {
         Def { world: 'A', kw: When, id: "re_paren_result", how: Re(r"^paren res (ok|err)$"), expect: |g, _| if g[0] == "err" { Err("planned failure in parentheses".into()) } else { Ok(format!("{:?}", g[0])) } },
         Def { world: 'A', kw: Given, id: "lit_macro_ret_err", how: Literal("macro made err"), expect: |_, _| Err("from a macro-made step".into()) },
         Def { world: 'A', kw: Given, id: "lit_macro_ret_ok", how: Literal("macro made ok"), expect: none },
+        Def { world: 'A', kw: Given, id: "re_dunder_named", how: Re(r"^(?P<__user>\w+) logs in with (?P<__pass>\w+)$"), expect: |g, _| Ok(format!("{:?},{:?}", g[0], g[1])) },
+        Def { world: 'A', kw: When, id: "re_dunder_named_slice", how: Re(r"^(?P<__a>\w+) and (?P<__b>\w+) log out$"), expect: |g, _| Ok(format!("{g:?}")) },
+        Def { world: 'A', kw: Then, id: "ex_nested_param", how: Expr("due on {date}", r"^due on ((\d{4})-(\d{2})-(\d{2}))$"), expect: |g, _| if g[0].len() == 10 { Ok(format!("{:?}", g[0])) } else { Err("can not be parsed".into()) } },
         Def { world: 'A', kw: Then, id: "re_with_step", how: Re(r"^step arg (\d+)$"), expect: |g, t| g[0].parse::<u8>().map(|n| format!("{n:?},{t:?}")).map_err(|_| "can not be parsed".into()) },
         Def { world: 'A', kw: When, id: "re_named_step_slice", how: Re(r"^named step (\w+) (\w+)$"), expect: |g, t| Ok(format!("{t:?},{g:?}")) },
         Def { world: 'A', kw: Given, id: "re_parse", how: Re(r"^num (\S+)$"), expect: |g, _| g[0].parse::<u32>().map(|n| format!("{n:?}")).map_err(|_| "can not be parsed".into()) },
@@ -509,6 +540,7 @@ const CORPUS: &[&str] = &[
     // regex
     "7 apples", "07 apples", "7 apples!", "x 7 apples", "99999999999 apples", "bob owes ann 5", "so bob owes ann 5 bucks", "bob owes ann", "bob owes ann -5",
     "slice a b c", "slice a b", "slice a b c d", "ints 1,2", "ints 1,300", "ints 1", "opt 1", "opt 1 and 2", "opt 1 and", "opt",
+    "bob logs in with secret", "bob logs in", "ann and bob log out", "due on 2024-05-17", "due on 2024-5-17",
     "paren res ok", "paren res err", "macro made err", "macro made ok",
     "alias res ok", "alias res err", "alias async ok", "alias async err", "alias async", "alias literal err",
     "res ok", "res err", "res maybe", "async res ok", "async res err", "step arg 5", "step arg 500", "named step x y", "named step x",
